@@ -76,18 +76,26 @@ func keyFor(h1out, b uint64) [16]byte {
 }
 
 var nwhMu sync.Mutex
-var nwhCache = map[uint64]string{}
+var nwhCache = map[[2]uint64]string{}
 
 // NameWithHash returns a 16-byte name, free of '/' and NUL and consisting of
 // ASCII bytes 0x21..0x7e, whose murmur3-x64-64 hash is exactly h. With it the
 // bucket of a name is controlled at every HAMT level.
-func NameWithHash(h uint64) string {
+func NameWithHash(h uint64) string { return nthNameWithHash(h, 0) }
+
+// NameWithHashAlt returns a second, different name with the same 64-bit hash
+// (a full collision).
+func NameWithHashAlt(h uint64) string { return nthNameWithHash(h, 1) }
+
+func nthNameWithHash(h uint64, n int) string {
+	ck := [2]uint64{h, uint64(n)}
 	nwhMu.Lock()
-	if v, ok := nwhCache[h]; ok {
+	if v, ok := nwhCache[ck]; ok {
 		nwhMu.Unlock()
 		return v
 	}
 	nwhMu.Unlock()
+	found := 0
 	for b := uint64(1); ; b++ {
 		k := keyFor(h, b*0x9e3779b97f4a7c15)
 		ok := true
@@ -105,9 +113,12 @@ func NameWithHash(h uint64) string {
 			panic(fmt.Sprintf("murmur3 inversion is wrong: %x != %x", model.Hash64(name), h))
 		}
 		nwhMu.Lock()
-		nwhCache[h] = name
+		nwhCache[[2]uint64{h, uint64(found)}] = name
 		nwhMu.Unlock()
-		return name
+		if found == n {
+			return name
+		}
+		found++
 	}
 }
 
@@ -127,4 +138,11 @@ func ExtremeUniverse() []string {
 		NameWithHash(0x0140_0000_0000_0000), // bucket 0x005 at fanout 1024, 0x002 at 512
 		NameWithHash(0x0000_0000_0000_0001), // shares 63 bits with the all-zero hash
 	}
+}
+
+// CollidingPair returns two different names with the same 64-bit hash: no HAMT
+// of any fanout can hold both.
+func CollidingPair() (string, string) {
+	const h = 0x5EED_C011_1DE0_0001
+	return NameWithHash(h), NameWithHashAlt(h)
 }
